@@ -210,6 +210,9 @@ def run_check(pid, tier, seed):
     def pick_native(func, o):
         fs = native_fail.get(func)
         if not fs:
+            # a harness registered under another function may exercise this one too: its failures name the function
+            fs = [f for lst in native_fail.values() for f in lst if any(str(x).startswith(func + ":") for x in f.get("failed") or [])]
+        if not fs:
             return None
         clause = (o.extra.get("clause") if o is not None else None) or ""
         for f in fs:
